@@ -30,20 +30,12 @@ func VerifC09CreateRace() {
 		}
 	}
 	errs := make([]error, 2)
-	done := make(chan int, 2)
-	for k := 0; k < 2; k++ {
-		k := k
-		go func() {
-			desc := "first"
-			if k == 1 {
-				desc = "second"
-			}
+	creator := func(k int, desc string) func() {
+		return func() {
 			errs[k] = CreateRepo(model.RepoDescriptor{Name: "r", Description: desc, Contributor: model.Contributor{Name: "n", Email: "e@x.io"}}, stores)
-			done <- k
-		}()
+		}
 	}
-	<-done
-	<-done
+	vTasks(creator(0, "first"), creator(1, "second"))
 	meta.sched = nil
 	if switched > 0 {
 		vCover("second-creator-ran-between")
